@@ -282,6 +282,32 @@ PROPS["C05"] = {
     "assumptions": [],
 }
 
+PROPS["C04"] = {
+    "pkg": "p04",
+    "level": "exploration",
+    "level_text": "The typing matrix itself is enumerated: all 28x28 pairs of types up to nesting depth 2 crossed with ~20 kinds of value "
+                  "(variable, grouped variable, concatenation/slice/repetition/element/field/call result over variables, literal with an "
+                  "embedded variable, constant literal, grouped/concatenated/sliced/repeated constant expressions, six (nested) empty "
+                  "literals) and six assignment-like contexts (typed declaration + assignment, parameter, variadic parameter, return, "
+                  "element store, field store): ~5.7*10^4 cells, each a tiny program whose acceptance and resulting typeof are predicted by "
+                  "a transcription of spec.md's assignability, operator-table and inference rules. Plus the operator table over depth-1 "
+                  "types (13 operators, variables and literals), unary operators, conditions, range operands, index/slice/dot/assertion, "
+                  "~80 inference cells, sampled depth-3 pairs and the permutation law (the inferred type of a literal does not depend on "
+                  "the order of its elements).",
+    "level_note": "Exhaustive for nesting depth <= 2 (coverage.exhaustive_part); depth 3 and permutations are sampled by rapid. The rules "
+                  "are the harness's reading of docs/spec.md (functions isAccepted, convertible, shapeMatches, binaryRule in harness/p04). "
+                  "typeof [] is not asserted on its own (prose and examples of the spec disagree).",
+    "technique": "exhaustive enumeration of the typing matrix up to depth 2 + property-based sampling beyond, against spec-transcribed rules (rapid)",
+    "tests": [
+        {"name": "TestMatrix", "rapid": False, "quick": {"shards": 8}, "thorough": {"shards": 16}},
+        {"name": "TestSampled", "quick": {"shards": 8, "checks": 4000}, "thorough": {"shards": 16, "checks": 80000}},
+    ],
+    "rule": "cases: matrix cells (context, target type, value kind, value type). Non-trivial = every cell whose deciding rule is not "
+            "'identical types'; distinct by cell coordinates.",
+    "exhaustive_part": "all cells for types up to nesting depth 2 (TestMatrix)",
+    "assumptions": [],
+}
+
 NOT_APPLICABLE = {}
 
 ENGINES = [
